@@ -110,6 +110,14 @@ Definition dispatch (req : sx) : sx :=
     SL (map (fun order => sx_res (fun l => SL (map sx_sans l))
                                  (sec_session (oracle_inflate a11) stream le is64 h (map sx_sobs (gL order))))
             (gL a12))
+  else if op =? "sec_obs_at" then
+    (* stream le is64 machine shoff shentsize n oracle (order...): section n as every entry point sees it -
+       header read at shoff + n*shentsize - one FRESH object per order *)
+    let stream := gB a1 in let le := gbool a2 in let is64 := gbool a3 in
+    SL (map (fun order => sx_res (fun l => SL (map sx_sans l))
+                                 (sec_session_at (oracle_inflate a8) stream le is64 (sh_type_table (gS a4))
+                                                 (gI a5) (gI a6) (gI a7) (map sx_sobs (gL order))))
+            (gL a9))
   else if op =? "elf_hist" then
     (* stream le is64 machine phoff phentsize phnum (ops...) *)
     SL (map sx_eans (elf_hist (mkEfile (gB a1) (gbool a2) (gbool a3) (p_type_table (gS a4)) (gI a5) (gI a6) (gI a7))
@@ -165,6 +173,11 @@ Definition dispatch (req : sx) : sx :=
     SL [sx_bool (forallb (phdr_fits (gbool a2) (gbool a3)) phs
                  && phdrs_at (gbool a2) (gbool a3) (gB a1) (gI a4) (gI a5) phs);
         SL (map sx_eans (spec_elf_hist phs (map sx_eop (gL a7))))]
+  else if op =? "spec_elf_hist_sparse" then
+    (* le is64 ((count phdr)...) (ops...) -> (every header fits, answers): the table is given as runs *)
+    let runs := map (fun r => (gI (nthx 0 (gL r)), sx_phdr (nthx 1 (gL r)))) (gL a3) in
+    SL [sx_bool (forallb (fun r => phdr_fits (gbool a1) (gbool a2) (snd r)) runs);
+        SL (map sx_eans (spec_elf_hist (expand_runs runs) (map sx_eop (gL a4))))]
   else if op =? "spec_extent" then   (* img off size *)
     if extent_in_file (gB a1) (gI a2) (gI a3) then SL [SS "some"; SB (extent (gB a1) (gI a2) (gI a3))] else sx_none
   else if op =? "spec_string" then sx_opt SB (string_at (gB a1) (gI a2))
